@@ -35,9 +35,8 @@ ASSUMPTIONS = [
 LEVEL_TEXT = (
     "Coq proofs over a model of one pooled DBAPI connection used by a sequence of users through the engine-level "
     "Connection API, for all histories, fault scripts, reset styles and pool classes: the next checkout is pristine "
-    "(guarded), transaction_was_reset=True is only passed over a closed DBAPI transaction (guarded), characteristics are "
-    "always restored and have a pending finaliser while set; the unguarded clean_on_checkout is refuted (failed COMMIT "
-    "followed by close())."
+    "(unguarded since commit 4102dab), transaction_was_reset=True never reaches _reset over an open DBAPI transaction, "
+    "characteristics are always restored and have a pending finaliser while set."
 )
 LEVEL_NOTE = "Trusted: Coq kernel; the hand transcription (source pin + correspondence on a fake DBAPI and on SQLite). No axioms."
 TECHNIQUE = "Coq invariant proof over a sequential user/reset state machine; source pin; model-vs-implementation correspondence on a fake DBAPI and on SQLite"
@@ -89,7 +88,7 @@ def translate(repo, outdir):
     return []
 
 
-# witnesses of the refutation theorems / the known finding (kept in step with coq/props/C24.v)
+# the former refutation witnesses (fixed by 4102dab) and the example of coq/props/C24.v
 WITNESSES = [
     [[0, 0, 0], [[O_WRITE, O_COMMIT, O_CLOSE]], [1]],
     [[1, 0, 0], [[O_FKWRITE, O_COMMIT, O_CLOSE]], []],
@@ -164,7 +163,12 @@ def _setup():
         def is_disconnect(self, e, connection, cursor):
             return False
 
-    _cache.update(FakeError=FakeError, Dialect=Dialect, tmp=tempfile.mkdtemp(prefix="verif_c24_"), n=[0])
+    import atexit
+    import shutil
+
+    tmp = tempfile.mkdtemp(prefix="verif_c24_")
+    atexit.register(shutil.rmtree, tmp, True)
+    _cache.update(FakeError=FakeError, Dialect=Dialect, tmp=tmp, n=[0])
     return _cache
 
 
